@@ -173,6 +173,14 @@ class MajorityJudgment:
         """
         scores = {cand: cscores.copy() for cand, cscores in scores.items()}
         while max(sum(cscores.values()) for cscores in scores.values()):
+            # a candidate that has run out of scores ranks below those
+            # that still have some
+            scores = {
+                cand: cscores for cand, cscores in scores.items()
+                if sum(cscores.values())
+            }
+            if len(scores) < n_seats:
+                break
             medians = self._agg.aggregate(scores)
             best = votelib.evaluate.core.get_n_best(medians, n_seats)
             for i, result in enumerate(best):
